@@ -485,9 +485,9 @@ fn parse_atom_latin1(input: &[u8]) -> NomResult<'_, OwnedTerm> {
         return Err(nom::Err::Failure(NomError::new(input, ErrorKind::TooLarge)));
     }
     let (input, bytes) = take(len as usize)(input)?;
-    let name = str::from_utf8(bytes)
-        .map_err(|_| nom::Err::Failure(NomError::new(input, ErrorKind::Char)))?;
-    Ok((input, OwnedTerm::Atom(Atom::new(name))))
+    // ATOM_EXT / SMALL_ATOM_EXT carry Latin-1: every byte is one code point
+    let name: String = bytes.iter().map(|&b| b as char).collect();
+    Ok((input, OwnedTerm::Atom(Atom::new(&name))))
 }
 
 fn parse_atom_utf8(input: &[u8]) -> NomResult<'_, OwnedTerm> {
@@ -518,9 +518,9 @@ fn parse_small_atom_latin1(input: &[u8]) -> NomResult<'_, OwnedTerm> {
         return Err(nom::Err::Failure(NomError::new(input, ErrorKind::TooLarge)));
     }
     let (input, bytes) = take(len as usize)(input)?;
-    let name = str::from_utf8(bytes)
-        .map_err(|_| nom::Err::Failure(NomError::new(input, ErrorKind::Char)))?;
-    Ok((input, OwnedTerm::Atom(Atom::new(name))))
+    // ATOM_EXT / SMALL_ATOM_EXT carry Latin-1: every byte is one code point
+    let name: String = bytes.iter().map(|&b| b as char).collect();
+    Ok((input, OwnedTerm::Atom(Atom::new(&name))))
 }
 
 fn parse_dist_header_with_cache<'a>(
@@ -970,9 +970,9 @@ fn parse_atom_latin1_borrowed(input: &[u8]) -> NomResult<'_, BorrowedTerm<'_>> {
         return Err(nom::Err::Failure(NomError::new(input, ErrorKind::TooLarge)));
     }
     let (input, bytes) = take(len as usize)(input)?;
-    let name = str::from_utf8(bytes)
-        .map_err(|_| nom::Err::Failure(NomError::new(input, ErrorKind::Char)))?;
-    Ok((input, BorrowedTerm::Atom(Cow::Borrowed(name))))
+    // ATOM_EXT / SMALL_ATOM_EXT carry Latin-1: every byte is one code point
+    let name: String = bytes.iter().map(|&b| b as char).collect();
+    Ok((input, BorrowedTerm::Atom(Cow::Owned(name))))
 }
 
 fn parse_atom_utf8_borrowed(input: &[u8]) -> NomResult<'_, BorrowedTerm<'_>> {
